@@ -89,6 +89,19 @@ def gen_subject(rng, pattern):
     return "".join(rng.choice(pool) for _ in range(n))
 
 
+def in_d32_region(p):
+    """a negated character class containing both \\p{X} and \\P{X} for the same X (known finding D32)"""
+    import re as _re
+
+    for m in _re.finditer(r"\[\^((?:\\.|[^\]\\])*)\]", p):
+        body = m.group(1)
+        pos = set(_re.findall(r"\\p\{(\w+)\}", body))
+        neg = set(_re.findall(r"\\P\{(\w+)\}", body))
+        if pos & neg:
+            return True
+    return False
+
+
 def explore_c11(rng, tier, res, deep=False):
     import jsonpath_rfc9535 as jp
     from jsonpath_rfc9535.function_extensions._pattern import map_re
@@ -129,8 +142,20 @@ def explore_c11(rng, tier, res, deep=False):
                 continue
             lines.append(f"ireg\t{wire.enc_str(p)}\t{wire.enc_str(s)}\t{cats_of(s)}")
             expect.append((p, s, m, sr))
+    # known finding D32: the witness is replayed; other inputs of the same region are not judged
+    res.evaluations += 1
+    try:
+        w = bool(cm.find([{"s": "a", "p": "[^\\p{L}\\P{L}]"}]))
+    except Exception:  # noqa: BLE001
+        w = None
+    if w is True:
+        res.known.append(("D32", "match('a', '[^\\p{L}\\P{L}]') is true: the third-party `regex` engine treats a negated class that "
+                                 "contains both \\p{X} and \\P{X} as matching everything; the class is empty under RFC 9485"))
     out = model.run_batch_parallel(lines)
     for (p, s, m, sr), o in zip(expect, out):
+        if in_d32_region(p):
+            res.count("D32-region-skipped")
+            continue
         if o == "invalid":
             res.count("invalid-pattern")
             if m or sr:
